@@ -46,13 +46,15 @@ Proof.
 Qed.
 
 Lemma message_for_line_total path src line col msg additional :
-  col <? usize_max = true ->
+  line <? usize_max = true -> col <? usize_max = true ->
   exists t, message_for_line path src line col msg additional = ROk t.
 Proof.
-  intros Hc. unfold message_for_line.
+  intros Hl Hc. unfold message_for_line.
+  destruct (usize_max <=? line) eqn:E1; [apply N.leb_le in E1; apply N.ltb_lt in Hl; lia|].
+  destruct (usize_max <=? col) eqn:E2; [apply N.leb_le in E2; apply N.ltb_lt in Hc; lia|].
+  cbn [orb].
   destruct (forallb _ _); [eexists; reflexivity|].
   destruct (minimum_indent _) as [mi|]; [|eexists; reflexivity].
-  destruct (usize_max <=? col) eqn:E; [apply N.leb_le in E; apply N.ltb_lt in Hc; lia|].
   destruct (render_lines_total line col msg additional mi
               (firstn 5 (skipN (line - 2) (enumerate_from 0 (lines src))))) as [b ->].
   cbn [rbind]. eexists; reflexivity.
@@ -74,9 +76,10 @@ Proof.
   - eexists; reflexivity.
   - cbn [forallb fst] in H. apply andb_true_iff in H. destruct H as [Hp Hr].
     destruct (rp_builtin p) eqn:Eb; [apply IH; exact Hr|].
-    unfold pos_in_store in Hp. rewrite Eb in Hp. cbn [orb] in Hp. apply andb_true_iff in Hp. destruct Hp as [Hf Hc].
+    unfold pos_in_store in Hp. rewrite Eb in Hp. cbn [orb] in Hp. apply andb_true_iff in Hp. destruct Hp as [Hp Hc].
+    apply andb_true_iff in Hp. destruct Hp as [Hf Hl].
     destruct (nthN_in_range files (rp_file p) Hf) as [[path src] ->].
-    destruct (message_for_line_total path src (rp_line p) (rp_col p) m true Hc) as [t ->]. cbn [rbind].
+    destruct (message_for_line_total path src (rp_line p) (rp_col p) m true Hl Hc) as [t ->]. cbn [rbind].
     apply IH. exact Hr.
 Qed.
 
@@ -91,9 +94,10 @@ Proof.
   cbn [render_guard] in G. apply andb_true_iff in G. destruct G as [Gp Ga].
   destruct (rp_builtin p) eqn:Eb; [eexists; reflexivity|].
   cbn [orb] in Ga.
-  unfold pos_in_store in Gp. rewrite Eb in Gp. cbn [orb] in Gp. apply andb_true_iff in Gp. destruct Gp as [Hf Hc].
+  unfold pos_in_store in Gp. rewrite Eb in Gp. cbn [orb] in Gp. apply andb_true_iff in Gp. destruct Gp as [Gp Hc].
+  apply andb_true_iff in Gp. destruct Gp as [Hf Hl].
   destruct (nthN_in_range files (rp_file p) Hf) as [[path src] ->].
-  destruct (message_for_line_total path src (rp_line p) (rp_col p) msg false Hc) as [t ->]. cbn [rbind].
+  destruct (message_for_line_total path src (rp_line p) (rp_col p) msg false Hl Hc) as [t ->]. cbn [rbind].
   apply render_additional_total. exact Ga.
 Qed.
 
@@ -101,6 +105,12 @@ Qed.
 Lemma render_index_refuted :
   print_positioned_error [] (Some (mkRP 0 0 0 false)) (s "m") [] = RPanic P_index.
 Proof. reflexivity. Qed.
+
+(** a position after the last line: the location is still named *)
+Example render_past_end :
+  print_positioned_error [(s "a.graphql", s "query {")] (Some (mkRP 3 0 0 false)) (s "boom") []
+  = ROk (s "a.graphql:4:1" ++ [10] ++ s "boom").
+Proof. vm_compute. reflexivity. Qed.
 
 (** non-vacuity: a diagnostic on a line indented with U+3000 (three bytes), position past the end
     of the line, with an additional note in a second file that uses CR LF and a lone CR *)
